@@ -113,9 +113,14 @@ Qed.
 
 (** ** what the correspondence check establishes for a recorded trace *)
 Theorem model_accepts_sound rc l tr ss :
-  model_accepts rc l tr = inr ss -> exists s, run (step rc (sc_of l)) init tr s.
+  model_accepts rc l tr = inr ss -> exists s, run (step_now rc (sc_of l)) init tr s.
 Proof.
   unfold model_accepts. intros H.
   eapply accepts_run with (leqb := ev_beq); [|exact H].
   intros a b E. apply internal_ev_dec_bl. exact E.
 Qed.
+
+(** [step] is the code minus the DEFECT C18_1 transition; for a ReconnectClient
+    there is no difference. *)
+Lemma step_now_rc sc s : step_now true sc s = step true sc s.
+Proof. unfold step_now, defect_steps. rewrite orb_true_r. apply app_nil_r. Qed.
